@@ -580,6 +580,75 @@ pub fn gen_doc(rng: &mut Rng, p: DocParams) -> Vec<u8> {
     out
 }
 
+/// A document assembled from the harvested seed snippets (realistic,
+/// feature-rich markup): concatenated, wrapped, spliced into each other, with
+/// numbers and words swapped for the generator's odd ones.
+pub fn gen_doc_from_seeds(rng: &mut Rng, target_len: usize, mix: &TextMix, huge_nums: bool) -> Vec<u8> {
+    use crate::seeds::SEEDS;
+    let mut out = String::new();
+    let mut guard = 0;
+    while out.len() < target_len.max(1) && guard < 400 {
+        guard += 1;
+        let seed = rng.pick(SEEDS);
+        let mut piece = seed.to_string();
+        // swap some numeric attribute values
+        if rng.chance(1, 3) {
+            for attr in ["colspan=\"", "start=\"", "rowspan=\""] {
+                if let Some(i) = piece.find(attr) {
+                    let vstart = i + attr.len();
+                    if let Some(len) = piece[vstart..].find('"') {
+                        let n = if huge_nums { rng.pick(NUMS) } else { rng.pick(SMALL_NUMS) };
+                        piece.replace_range(vstart..vstart + len, n);
+                    }
+                }
+            }
+        }
+        // swap a word of text for one of the generator's
+        if rng.chance(1, 3) {
+            if let Some(i) = piece.find('>') {
+                let mut w = String::new();
+                gen_word(rng, mix, &mut w);
+                let at = i + 1;
+                if piece.is_char_boundary(at) {
+                    piece.insert_str(at, &w);
+                }
+            }
+        }
+        match rng.below(8) {
+            0 => {
+                let tag = rng.pick(&["div", "blockquote", "li", "td", "pre", "ul", "ol", "table", "center", "dd", "h2", "a", "em", "s", "sup"]);
+                out.push_str(&format!("<{}>{}</{}>", tag, piece, tag));
+            }
+            1 => {
+                // splice into the middle of what we have, at a tag boundary
+                let cands: Vec<usize> = out.match_indices('<').map(|(i, _)| i).collect();
+                if cands.is_empty() {
+                    out.push_str(&piece);
+                } else {
+                    let at = rng.pick(&cands);
+                    out.insert_str(at, &piece);
+                }
+            }
+            2 => {
+                out.push_str("<table><tr><td>");
+                out.push_str(&piece);
+                out.push_str("</td><td>");
+                out.push_str(rng.pick(SEEDS));
+                out.push_str("</td></tr></table>");
+            }
+            _ => out.push_str(&piece),
+        }
+        if target_len <= 64 {
+            break;
+        }
+    }
+    let mut bytes = out.into_bytes();
+    if bytes.len() > target_len * 2 + 2048 {
+        bytes.truncate(target_len * 2 + 2048);
+    }
+    bytes
+}
+
 // ---------------------------------------------------------------- css
 
 pub fn gen_colour(rng: &mut Rng) -> String {
